@@ -7,7 +7,8 @@ Section ArgsMain.
   Variable m : pmode.
   Variable nm : names.
   Variable env : penv.
-  Notation pr := (print m nm).
+  Variable pol : policy.
+  Notation pr := (gprint m nm pol).
 
   Section Args.
     Variable rec : list token -> presult.
